@@ -110,7 +110,7 @@ def render_function(prog, mname, f):
     else:
         lines.append(f"def {f['name']}({ps}):")
         ind = "    "
-    lines.append(f"{ind}_salt = {f.get('salt', 's0')!r}")
+    lines.append(f"{ind}_salt = {f.get('salt', 's0')!r}" + (f"  # {f['comment']}" if f.get("comment") else ""))
     for i, st in enumerate(f["stmts"]):
         k = st["k"]
         if k == "call":
